@@ -36,7 +36,8 @@ Qed.
 Section Complete.
   Variable doc : tsdoc.
   Hypothesis Hu : unique_names doc = true.
-  Hypothesis HR : forall r, rule_ok r doc = true.
+  Variable b : bool.
+  Hypothesis HR : forall r, rule_ok_gen b r doc = true.
   Hypothesis Hau : ok_app_arg_unique doc = true.
   Hypothesis Hne : ok_app_args_nonempty doc = true.
   Hypothesis HK : ok_extra_args_nullable doc = true.
@@ -47,13 +48,13 @@ Section Complete.
     forall a, In a l -> reserved (iname (iv_name a)) = false /\ input_ty doc (iv_type a).
   Proof.
     intros Hl. split.
-    - pose proof (HR RDupArg) as H. cbn [rule_ok] in H. unfold ok_dup_arg in H. rewrite forallb_forall in H.
+    - pose proof (HR RDupArg) as H. cbn [rule_ok_gen] in H. unfold ok_dup_arg in H. rewrite forallb_forall in H.
       apply nodup_str_NoDup. apply H. exact Hl.
     - intros a Ha. split.
-      + pose proof (HR RReserved) as H. cbn [rule_ok] in H. unfold ok_reserved in H. rewrite !andb_true_iff in H.
+      + pose proof (HR RReserved) as H. cbn [rule_ok_gen] in H. unfold ok_reserved in H. rewrite !andb_true_iff in H.
         destruct H as [[[_ _] H] _]. rewrite forallb_forall in H. specialize (H l Hl). rewrite forallb_forall in H.
         apply negb_true_iff. apply H. exact Ha.
-      + pose proof (HR RUnknownType) as H1. pose proof (HR ROutputInInput) as H2. cbn [rule_ok] in H1, H2.
+      + pose proof (HR RUnknownType) as H1. pose proof (HR ROutputInInput) as H2. cbn [rule_ok_gen] in H1, H2.
         unfold ok_unknown_type in H1. rewrite !andb_true_iff in H1. destruct H1 as [[[[_ H1] _] _] _].
         unfold ok_output_in_input in H2. rewrite andb_true_iff in H2. destruct H2 as [H2 _].
         rewrite forallb_forall in H1, H2. specialize (H1 l Hl). specialize (H2 l Hl). rewrite forallb_forall in H1, H2.
@@ -95,9 +96,9 @@ Section Complete.
   Proof.
     intros Hla. unfold check_directives. apply check_directives_aux_complete. intros a Ha.
     pose proof (HR RDirectiveUnknown) as H1. pose proof (HR RDirectiveMisplaced) as H2.
-    pose proof (HR RDirectiveRepeated) as H3. pose proof (HR RDirectiveArgs) as H4. cbn [rule_ok] in *.
+    pose proof (HR RDirectiveRepeated) as H3. pose proof (HR RDirectiveArgs) as H4. cbn [rule_ok_gen] in *.
     unfold ok_directive_unknown in H1. unfold ok_directive_misplaced in H2. unfold ok_directive_repeated in H3.
-    unfold ok_directive_args, ok_directive_args_gen in H4. unfold ok_app_arg_unique in Hau. unfold ok_app_args_nonempty in Hne.
+    unfold ok_directive_args_gen in H4. unfold ok_app_arg_unique in Hau. unfold ok_app_args_nonempty in Hne.
     rewrite forallb_forall in H1, H2, H3, H4, Hau, Hne.
     specialize (H1 la Hla). specialize (H2 la Hla). specialize (H3 la Hla). specialize (H4 la Hla). specialize (Hau la Hla). specialize (Hne la Hla).
     rewrite forallb_forall in H1, H2, H3, H4, Hau, Hne.
@@ -106,7 +107,7 @@ Section Complete.
     exists def. split; [reflexivity|]. split; [exact H2|]. split.
     - pose proof (lookup_d_In _ _ _ L) as [Hdin _].
       destruct (arg_list_facts _ (directive_arg_list def Hdin)) as [Hnd Hfacts].
-      apply (check_arguments_complete doc true); try assumption.
+      apply (check_arguments_complete doc b); try assumption.
       + pose proof (HR RDupInputField) as H; exact H.
       + pose proof (HR RUnknownType) as H; exact H.
       + pose proof (HR ROutputInInput) as H; exact H.
@@ -167,11 +168,11 @@ Section Complete.
   Proof.
     intros Ht Hc Happs. pose proof (comp_of _ _ _ _ Ht Hc) as Hcomp.
     apply seen_loop_nil_conv; [| intros ? ? [] |].
-    - pose proof (HR RDupField) as H. cbn [rule_ok] in H. unfold ok_dup_field in H. rewrite forallb_forall in H.
+    - pose proof (HR RDupField) as H. cbn [rule_ok_gen] in H. unfold ok_dup_field in H. rewrite forallb_forall in H.
       apply nodup_str_NoDup. apply (H _ Hcomp).
     - intros f Hf.
       assert (Hall : In f (all_fields doc)) by (apply In_all_fields; exists (n, impls, fs); split; [exact Hcomp | exact Hf]).
-      pose proof (HR RReserved) as H1. pose proof (HR RUnknownType) as H2. pose proof (HR RInputInOutput) as H3. cbn [rule_ok] in *.
+      pose proof (HR RReserved) as H1. pose proof (HR RUnknownType) as H2. pose proof (HR RInputInOutput) as H3. cbn [rule_ok_gen] in *.
       unfold ok_reserved in H1. rewrite !andb_true_iff in H1. destruct H1 as [[[_ H1] _] _].
       unfold ok_unknown_type in H2. rewrite !andb_true_iff in H2. destruct H2 as [[[[H2 _] _] _] _].
       unfold ok_input_in_output in H3. rewrite forallb_forall in H1, H2, H3.
@@ -235,7 +236,7 @@ Section Complete.
       apply find_none_forall in Fo. unfold arg_named in A5. rewrite Fo in A5. apply negb_true_iff in A5.
       unfold ty_nonnull in A5. unfold ty_is_nonnull. rewrite A5. reflexivity. }
     rewrite E1, E2. cbn [app].
-    pose proof (HR RUnknownType) as H2. cbn [rule_ok] in H2. unfold ok_unknown_type in H2. rewrite !andb_true_iff in H2.
+    pose proof (HR RUnknownType) as H2. cbn [rule_ok_gen] in H2. unfold ok_unknown_type in H2. rewrite !andb_true_iff in H2.
     destruct H2 as [[[[H2 _] _] _] _]. rewrite forallb_forall in H2.
     unfold ty_defined in A2. rewrite (H2 f Hfall), (H2 jf Hjall) in A2. cbn [andb] in A2.
     pose proof (is_subtype_complete doc _ _ A2) as Hs.
@@ -251,14 +252,14 @@ Section Complete.
     unfold check_implements. apply flat_map_nil. intros i Hi.
     assert (Hs : bself && str_eqb (iname n) (iname i) = false).
     { destruct bself; [|reflexivity]. cbn [andb]. destruct (Hself eq_refl) as [d [p [ds [kw ->]]]].
-      pose proof (HR RImplementsSelf) as H. cbn [rule_ok] in H. unfold ok_implements_self in H. rewrite forallb_forall in H.
+      pose proof (HR RImplementsSelf) as H. cbn [rule_ok_gen] in H. unfold ok_implements_self in H. rewrite forallb_forall in H.
       specialize (H _ Ht). cbn beta iota in H. apply negb_true_iff in H.
       destruct (str_eqb (iname n) (iname i)) eqn:E; [|reflexivity]. exfalso.
       assert (Hex : existsb (fun i0 => str_eqb (iname i0) (iname n)) impls = true).
       { apply existsb_exists. exists i. split; [exact Hi | rewrite str_eqb_sym; exact E]. }
       rewrite Hex in H. discriminate. }
     rewrite Hs. rewrite (last_type_lookup doc _ Hu).
-    pose proof (HR RUnknownType) as H1. pose proof (HR RNotInterface) as H2. cbn [rule_ok] in H1, H2.
+    pose proof (HR RUnknownType) as H1. pose proof (HR RNotInterface) as H2. cbn [rule_ok_gen] in H1, H2.
     unfold ok_unknown_type in H1. rewrite !andb_true_iff in H1. destruct H1 as [[_ H1] _].
     unfold ok_not_interface in H2. rewrite forallb_forall in H1, H2.
     specialize (H1 _ Hcomp). specialize (H2 _ Hcomp). cbn [fst snd] in H1, H2. rewrite forallb_forall in H1, H2.
@@ -268,7 +269,7 @@ Section Complete.
     assert (Hj : In j (declared_ifaces doc impls)).
     { apply In_declared_ifaces. do 8 eexists. split; [exact Hi|]. split; [exact L | reflexivity]. }
     unfold check_valid_implementation. apply app_nil_intro.
-    - apply flat_map_nil. intros k Hk. pose proof (HR RMissingTransitive) as H. cbn [rule_ok] in H.
+    - apply flat_map_nil. intros k Hk. pose proof (HR RMissingTransitive) as H. cbn [rule_ok_gen] in H.
       unfold ok_missing_transitive in H. rewrite forallb_forall in H. specialize (H _ Hcomp). cbn [fst snd] in H.
       rewrite forallb_forall in H. specialize (H j Hj). cbn [fst snd] in H. rewrite forallb_forall in H. specialize (H k Hk).
       unfold declares in H. rewrite H. reflexivity.
@@ -281,7 +282,7 @@ Section Complete.
   Proof.
     intros Ht.
     assert (Hres : unsco (typedef_name t) = []).
-    { apply unsco_ok. pose proof (HR RReserved) as H. cbn [rule_ok] in H. unfold ok_reserved in H. rewrite !andb_true_iff in H.
+    { apply unsco_ok. pose proof (HR RReserved) as H. cbn [rule_ok_gen] in H. unfold ok_reserved in H. rewrite !andb_true_iff in H.
       destruct H as [[[[H _] _] _] _]. rewrite forallb_forall in H. apply negb_true_iff. apply (H t Ht). }
     assert (Hdirs : forall loc ds, In (loc, ds) (type_apps t) -> check_directives doc ds loc = []).
     { intros loc ds Hin. apply apps_complete'. apply (type_apps_all t); assumption. }
@@ -295,10 +296,10 @@ Section Complete.
       apply (implements_complete _ true name impls fields Ht eq_refl). intros _. do 4 eexists. reflexivity.
     - rewrite (Hdirs _ _ (or_introl eq_refl)). cbn [app].
       apply seen_loop_nil_conv; [| intros ? ? [] |].
-      + pose proof (HR RDupUnionMember) as H. cbn [rule_ok] in H. unfold ok_dup_union_member in H. rewrite forallb_forall in H.
+      + pose proof (HR RDupUnionMember) as H. cbn [rule_ok_gen] in H. unfold ok_dup_union_member in H. rewrite forallb_forall in H.
         apply nodup_str_NoDup. apply (H _ Ht).
       + intros m Hm. unfold member_body. cbn [dup_err app]. rewrite (last_type_lookup doc _ Hu).
-        pose proof (HR RUnknownType) as H1. pose proof (HR RUnionMemberNotObject) as H2. cbn [rule_ok] in H1, H2.
+        pose proof (HR RUnknownType) as H1. pose proof (HR RUnionMemberNotObject) as H2. cbn [rule_ok_gen] in H1, H2.
         unfold ok_unknown_type in H1. rewrite !andb_true_iff in H1. destruct H1 as [_ H1].
         unfold ok_union_member_not_object in H2. rewrite forallb_forall in H1, H2.
         specialize (H1 _ Ht). specialize (H2 _ Ht). cbn beta iota in H1, H2. rewrite forallb_forall in H1, H2.
@@ -306,17 +307,17 @@ Section Complete.
         destruct (lookup_t doc (iname m)) as [[]|]; try discriminate; reflexivity.
     - rewrite (Hdirs _ _ (or_introl eq_refl)). cbn [app].
       apply seen_loop_nil_conv; [| intros ? ? [] |].
-      + pose proof (HR RDupEnumValue) as H. cbn [rule_ok] in H. unfold ok_dup_enum_value in H. rewrite forallb_forall in H.
+      + pose proof (HR RDupEnumValue) as H. cbn [rule_ok_gen] in H. unfold ok_dup_enum_value in H. rewrite forallb_forall in H.
         apply nodup_str_NoDup. apply (H _ Ht).
       + intros v Hv. unfold enum_value_body. cbn [dup_err app]. apply Hdirs. right. apply in_map_iff. exists v. split; [reflexivity | exact Hv].
     - rewrite (Hdirs _ _ (or_introl eq_refl)). cbn [app].
       assert (Hl : In fields (all_input_field_lists doc)).
       { unfold all_input_field_lists. apply in_flat_map. eexists. split; [exact Ht | left; reflexivity]. }
       apply seen_loop_nil_conv; [| intros ? ? [] |].
-      + pose proof (HR RDupInputField) as H. cbn [rule_ok] in H. unfold ok_dup_input_field in H. rewrite forallb_forall in H.
+      + pose proof (HR RDupInputField) as H. cbn [rule_ok_gen] in H. unfold ok_dup_input_field in H. rewrite forallb_forall in H.
         apply nodup_str_NoDup. apply (H _ Hl).
       + intros f Hf. unfold input_field_body. cbn [dup_err app].
-        pose proof (HR RReserved) as H1. cbn [rule_ok] in H1. unfold ok_reserved in H1. rewrite !andb_true_iff in H1. destruct H1 as [_ H1].
+        pose proof (HR RReserved) as H1. cbn [rule_ok_gen] in H1. unfold ok_reserved in H1. rewrite !andb_true_iff in H1. destruct H1 as [_ H1].
         rewrite forallb_forall in H1. specialize (H1 _ Hl). rewrite forallb_forall in H1. specialize (H1 f Hf). apply negb_true_iff in H1.
         rewrite (unsco_ok _ H1). cbn [app].
         rewrite (Hdirs (s "INPUT_FIELD_DEFINITION") (iv_dirs f)); [cbn [app] | right; apply in_map_iff; exists f; split; [reflexivity | exact Hf]].
@@ -329,7 +330,7 @@ Section Complete.
     unsco (dd_name d) ++ (match dd_args d with Some a => check_args_def doc a | None => [] end) = [].
   Proof.
     intros Hd.
-    pose proof (HR RReserved) as H. cbn [rule_ok] in H. unfold ok_reserved in H. rewrite !andb_true_iff in H.
+    pose proof (HR RReserved) as H. cbn [rule_ok_gen] in H. unfold ok_reserved in H. rewrite !andb_true_iff in H.
     destruct H as [[[[_ H] _] _] _]. rewrite forallb_forall in H. specialize (H d Hd). apply negb_true_iff in H.
     rewrite (unsco_ok _ H). cbn [app]. destruct (dd_args d) as [a|] eqn:Ea; [|reflexivity].
     apply args_def_complete.
